@@ -32,7 +32,7 @@ ASSUMPTIONS = [
     "a 20 s alarm per case reports 'inconclusive' (counted), never a violation",
 ]
 BUDGET = {"quick": (16, 600), "thorough": (16, 15000)}
-N_MUT = 25
+N_MUT = 26
 
 
 def strategy(tier, phase):
@@ -249,6 +249,24 @@ def mutate(mp, muts):
                 mp.graph.quantization_annotation.add(tensor_name="no_such")
             elif kind == 24:  # IR version inconsistent with the features used
                 mp.ir_version = [0, 3, 9, 10, 11, 2**31 - 1, 7][b % 7]
+            elif kind == 25:  # types that keep their shape but lose the element type (also inside sequence/optional)
+                graphs = [mp.graph] + [g for _, g in nodes if isinstance(g, onnx.GraphProto)]
+                vis = [vi for g in graphs for vi in list(g.value_info) + list(g.input) + list(g.output)] + [vi for f in mp.functions for vi in f.value_info]
+                hit = 0
+                for i, vi in enumerate(vis):
+                    if (a + i) % (1 + b % 3) == 0:
+                        t = vi.type
+                        for _ in range(4):
+                            w = t.WhichOneof("value")
+                            if w in ("sequence_type", "optional_type"):
+                                t = getattr(t, w).elem_type
+                            else:
+                                break
+                        if t.WhichOneof("value") == "tensor_type" and t.tensor_type.HasField("shape"):
+                            t.tensor_type.ClearField("elem_type")
+                            hit += 1
+                if not hit:
+                    continue
             else:
                 continue
             applied += 1
@@ -349,6 +367,8 @@ def check_proto(mp, label):
                         from vlib import protocanon
 
                         d = protocanon.first_diff(p1, p2)
+                        if d and d[0].endswith("value_info#count") and "type {" not in d[1]:
+                            d = (d[0] + ":untyped-entry", d[1])  # an entry holding only a name (separate root cause)
                         fails.append((f"no-fixpoint/{d[0] if d else '?'}", f"{label}: to_proto(from_proto(P1)) != P1: {d[1] if d else ''}"[:400]))
                 except _Timeout:
                     raise
